@@ -5,5 +5,8 @@ GROUPS = [
  dict(name='dec_layout', cls='P', tu='C11_dec_ctl.c', entry='h_dec_init', dfcc=False, timeout=600, unwind=2, expect_canaries=2, functions=['opus_decoder_init', 'opus_decoder_get_size'],
       trusted=['stub sizes for the SILK / CELT sub-decoders'],
       what='sub-states at aligned, disjoint offsets inside opus_decoder_get_size() bytes, stored as offsets (position independent => memcpy-copyable top level)'),
+ dict(name='enc_reset', cls='P', tu='C11_enc_ctl.c', entry='h_enc_reset', dfcc=False, timeout=900, unwind=2, cbmc_flags=['--object-bits', '10', '--no-array-field-sensitivity'],
+      functions=['opus_encoder_ctl'], trusted=['celt_encoder_ctl stub; silk_InitEncoder and tonality_analysis_reset are bodiless (sub-state resets not verified)'],
+      what='OPUS_RESET_STATE on an arbitrary encoder state: settings kept, stream state (incl. DTX counter, delay buffer) as opus_encoder_init leaves it'),
 ]
 META = {}
